@@ -36,6 +36,13 @@ replay: each history is executed on
             nothing to do with Model.MaxTime (step group: one point per sweep), so no retrieval may depend on
             it.  Thorough tier also on the solved SIM model (MaxTime 8) whose step group really holds 160
             sweeps of HH__F (tracked for these histories only).
+          * the ORDERED NAME LIST and edits that keep the number of series (instances MC_Results_names*):
+            GetNames = <holder>.GetSeriesList() hands the caller a list, MutateHeld may reverse it in place /
+            append to it / pop from it (as it may the lists of values), Replace = holder[new] = holder.pop(old)
+            swaps one stored series for another.  Every RenderTable is accompanied by a reference rendering:
+            the driver builds a NEW TimeSeriesHolder holding copies of the series stored just before the call
+            and renders that (same code, same stored series, no call history); fresh_same says whether the two
+            texts are equal.  "The same stored series always give the same text" -> C16_Repeatable requires it.
           * a small BaseSolver subclass (the object of test_base_solver.py) for BaseCsv
         after every call a deep snapshot of the three holders, of BaseSolver.VariableList and of
         the BaseSolver's series attributes is taken and compared with the previous one; lists returned
@@ -71,7 +78,7 @@ SENTINEL = 99
 EXTVAL = 7                                                            # = ExtVal in Results.tla
 NOCUT = -1
 GROUPS = ('main', 'step', 'initial')
-ASK_NAMES = ('t', 'x', 'q')                                            # names the instances' Asks use
+ASK_NAMES = ('t', 'x', 'q', 'a')                                         # names the instances' Asks use
 KNOWN = {'main': {'t': [0, 1, 2], 'x': [4, 5, 6]}, 'step': {}, 'initial': {}}      # = MC_InitStore
 BASE = {'x': [1., 1., 1.], 'y': [2., 2., 2.], 't': [0., 1., 2.]}      # = MC_BaseStore
 SOLVED_NAMES = {'t': 't', 'x': 'HH__F'}                               # behaviour name -> series of SIM
@@ -244,10 +251,16 @@ class World(object):
         if store and self.kind == 'known':
             src = {g: dict(store.get(g) or {}) for g in GROUPS}
             self.names = {g: {k: k for k in src[g]} for g in GROUPS}
+        # every history starts on NEW holder objects of the same class holding copies of the pristine series,
+        # so that nothing a previous history left inside a holder (beyond its dict content) can leak into
+        # this one and every recorded history reproduces on its own
+        es = self.model.EquationSolver
+        attr = {'main': 'TimeSeries', 'step': 'TimeSeriesStepTrace', 'initial': 'TimeSeriesInitialSteadyState'}
         for g, h in self.holders().items():
-            h.clear()
+            new = type(h)(getattr(h, 'TimeSeriesName', 'k'))
             for k, v in src[g].items():
-                h[k] = list(v)
+                new[k] = list(v)
+            setattr(es, attr[g], new)
         self.base_keys = {g: set(src[g]) for g in GROUPS}
         if self.kind == 'solved':       # the long step series is shipped only to histories that ask for it
             self.names['step'] = dict(SOLVED_STEP_NAMES) if track_step else {}
@@ -274,18 +287,29 @@ class World(object):
             return int(v)
         return -1
 
+    def bname(self, grp, real):
+        """behaviour name under which a stored series is shipped to TLC: a tracked series under its own
+        name; a series that was not stored when the history began under the name a Get may have asked for
+        it (else '+name'); any other series is not shipped (None)"""
+        for b, r in self.names[grp].items():
+            if r == real:
+                return b
+        if real in self.base_keys[grp]:
+            return None
+        for b in sorted(set(ASK_NAMES) | set(self.absent) | set(self.names['main'])):
+            if b not in self.names[grp] and self.real(grp, b) == real:
+                return b
+        return '+' + str(real)
+
     def project(self, deep):
-        """group -> tracked series (behaviour names) plus every series that was not there at the start
-        (under the behaviour name that stands for it when a Get may have asked for it, else '+name')"""
+        """group -> the shipped series (see bname), values coded"""
         out = {}
         for g in GROUPS:
-            d = {b: [self.code(v) for v in deep[g].get(real, [])] for b, real in self.names[g].items()}
-            new = [k for k in deep[g] if k not in self.base_keys[g]]
-            if new:
-                inv = {self.real(g, b): b for b in set(ASK_NAMES) | set(self.absent) | set(self.names['main'])
-                       if b not in self.names[g]}
-                for k in new:
-                    d[inv.get(k, '+' + str(k))] = [self.code(v) for v in deep[g][k]]
+            d = {}
+            for real, vals in deep[g].items():
+                b = self.bname(g, real)
+                if b is not None:
+                    d[b] = [self.code(v) for v in vals]
             out[g] = d
         return out
 
@@ -323,6 +347,23 @@ def base_cell(cell):
 # replay
 # --------------------------------------------------------------------------------------
 
+def fresh_text(holder, before, fmt):
+    """Reference rendering: a new holder of the same class holding copies of the series in `before`."""
+    try:
+        fresh = type(holder)(getattr(holder, 'TimeSeriesName', 'k'))
+        for k, v in before.items():
+            fresh[k] = list(v)
+        return True, fresh.GenerateCSVtext(fmt)
+    except Exception:
+        return False, ''
+
+
+def bnames(w, grp, reals):
+    """stored names -> the behaviour names that stand for them (series that are not shipped are left out)"""
+    out = [w.bname(grp, r) for r in reals]
+    return [b for b in out if b is not None]
+
+
 def render_event(w, grp, fmt, before, text):
     """Projection of one rendered table of a group: per tracked series the cells, coded by the stored
     value they spell (-1 = the cell is not `fmt % stored value`).  before = that group's snapshot."""
@@ -330,11 +371,17 @@ def render_event(w, grp, fmt, before, text):
     hdr = lines[0].split('\t') if text != '' else []
     rows = [ln.split('\t') for ln in lines[1:] if ln != '']
     cols = {}
-    for b, real in w.names[grp].items():
+    for real in before:
+        b = w.bname(grp, real)
+        if b is None:                   # not shipped to TLC
+            continue
+        if real not in hdr:             # a stored series without a column: one cell that matches nothing
+            cols[b] = [-1]
+            continue
         j = hdr.index(real)
         col = []
         for i, r in enumerate(rows):
-            stored = before.get(real, [])
+            stored = before[real]
             same = i < len(stored) and j < len(r) and (fmt % (stored[i],)) == r[j]
             col.append(w.code(stored[i]) if same else -1)
         cols[b] = col
@@ -353,10 +400,9 @@ def main_finally_events(w, base_varlist):
     ev0 = dict({'ev': 'Init', 'world': w.kind, 'maxtime': w.maxtime0, 'snap': w.project(before), 'dig': core.digest(before),
                 'store_same': False}, **common)
     ev1 = {'ev': 'RenderTable', 'grp': 'main', 'fmt': fmt, 'same_first': True}
-    try:
-        ev1.update(render_event(w, 'main', fmt, before['main'], text))
-    except Exception as e:
-        ev1.update(ok=False, hdr=[], cols={}, ncols=0, tdig='', exc=type(e).__name__)
+    fok, ftext = fresh_text(w.holder(), before['main'], fmt)
+    ev1.update(fresh_ok=fok, fresh_same=bool(fok and ftext == text))
+    ev1.update(render_event(w, 'main', fmt, before['main'], text))
     ev1.update(dict({'snap': w.project(after), 'dig': core.digest(after), 'store_same': before == after},
                     **common))
     return [ev0, ev1]
@@ -385,6 +431,7 @@ def execute(beh, kind='known'):
     m = w.model
     base = make_base(beh['varlist'])
     held = []
+    held_kind = []
     first_text = {}
     state = {'gdig': {}}
 
@@ -442,13 +489,37 @@ def execute(beh, kind='known'):
             except Exception as e:
                 ev.update(ok=False, ret=[], exc=type(e).__name__, aliased=False)
             held.append(val if isinstance(val, list) else [])
+            held_kind.append('vals')
+        elif what == 'GetNames':
+            grp = call['grp']
+            ev = {'ev': 'GetNames', 'grp': grp}
+            lst = None
+            try:
+                lst = w.holders()[grp].GetSeriesList()
+                if isinstance(lst, list):
+                    ev.update(ok=True, names=bnames(w, grp, lst), nnames=len(lst), exc='')
+                else:
+                    ev.update(ok=False, names=[], nnames=0, exc='returned ' + type(lst).__name__)
+            except Exception as e:
+                ev.update(ok=False, names=[], nnames=0, exc=type(e).__name__)
+            held.append(lst if isinstance(lst, list) else [])
+            held_kind.append('names')
+        elif what == 'Replace':
+            ev = {'ev': 'Replace', 'name': call['name'], 'op': call['op'], 'done': True}
+            try:
+                h = w.holder()
+                h[w.real('main', call['op'])] = h.pop(w.real('main', call['name']))
+            except Exception as e:
+                ev.update(done=False, exc=type(e).__name__)
         elif what == 'MutateHeld':
             ev = {'ev': 'MutateHeld', 'i': call['i'], 'op': call['op'], 'done': True}
             lst = held[call['i'] - 1] if 0 < call['i'] <= len(held) else None
             if lst is None:
                 ev['done'] = False
             elif call['op'] == 'append':
-                lst.append(SENTINEL)
+                lst.append(SENTINEL if held_kind[call['i'] - 1] == 'vals' else 'zz')
+            elif call['op'] == 'reverse':
+                lst.reverse()
             elif lst:
                 lst.pop()
             else:
@@ -471,11 +542,17 @@ def execute(beh, kind='known'):
                     text = m.EquationSolver.GenerateCSVtext(call['fmt'])
                 else:
                     text = w.holders()[grp].GenerateCSVtext(call['fmt'])
+                if not isinstance(text, str):
+                    raise TypeError('returned ' + type(text).__name__)
+            except Exception as e:
+                text = None
+                ev.update(ok=False, hdr=[], cols={}, ncols=0, tdig='', same_first=False, exc=type(e).__name__)
+            if text is not None:        # the projection is the driver's own code: its errors are not observations
                 ev.update(render_event(w, grp, call['fmt'], before, text))
                 first_text.setdefault((grp, call['fmt']), text)
                 ev['same_first'] = (text == first_text[(grp, call['fmt'])])
-            except Exception as e:
-                ev.update(ok=False, hdr=[], cols={}, ncols=0, tdig='', same_first=False, exc=type(e).__name__)
+            fok, ftext = fresh_text(w.holders()[grp], before, call['fmt'])
+            ev.update(fresh_ok=fok, fresh_same=bool(fok and text is not None and ftext == text))
         elif what == 'Extend':
             ev = {'ev': 'Extend', 'name': call['name'], 'done': True}
             try:
@@ -495,6 +572,7 @@ def execute(beh, kind='known'):
                           same_first=(text == first_text['base']), exc='')
             except Exception as e:
                 ev.update(ok=False, hdr=[], cols={}, ncols=0, tdig='', same_first=False, exc=type(e).__name__)
+            ev.update(fresh_ok=False, fresh_same=True)      # no reference rendering for the BaseSolver
         else:
             raise core.MachineryError('unknown call %r in behaviour' % (what,))
         ev.update(observe())
@@ -549,12 +627,18 @@ def signature(clause, at, events):
             return 'get-not-repeatable:%s%s' % ('' if ev.get('stored', True) else 'name-not-stored:', _cs(ev))
         if what == 'BaseCsv':
             return 'basecsv-text-differs-for-same-series'
+        if not ev.get('fresh_same', True) or not ev.get('ok', True):
+            # what happened since the start that the stored series do not show
+            before = [e['ev'] + (':' + e['op'] if e['ev'] == 'MutateHeld' else '') for e in events[1:at - 1]
+                      if e['ev'] in ('GetNames', 'MutateHeld', 'Replace', 'RenderTable', 'Extend')]
+            return 'render-differs-from-fresh-holder-with-same-series:after-%s%s' % (
+                '+'.join(sorted(set(before))) or 'nothing', '' if ev.get('ok', True) else ':raises-' + str(ev.get('exc')))
         return 'render-text-differs-for-same-series:%s' % ev.get('fmt')
     return '%s@%s' % (clause, what)
 
 
 def nontrivial(beh):
-    reads = [c for c in beh['calls'] if c['ev'] in ('Get', 'RenderTable', 'BaseCsv')]
+    reads = [c for c in beh['calls'] if c['ev'] in ('Get', 'RenderTable', 'BaseCsv', 'GetNames')]
     return len(reads) >= 1 and len(beh['calls']) >= 2
 
 
@@ -574,6 +658,10 @@ def call_text(c):
         return 'Extend(%s)' % c['name']
     if c['ev'] == 'SetMaxTime':
         return 'SetMaxTime(%s)' % c['c']
+    if c['ev'] == 'GetNames':
+        return 'GetNames(%s)' % c['grp']
+    if c['ev'] == 'Replace':
+        return 'Replace(%s->%s)' % (c['name'], c['op'])
     return c['ev']
 
 
@@ -622,7 +710,7 @@ def judge(rep, behs, kind, need_failing_get=False, need_one_point=False, need_be
             bad = events[at - 1] if 0 < at <= len(events) else {}
             detail = 'world=%s calls=[%s] failing call #%d %s observed %s' % (
                 kind, '; '.join(call_text(c) for c in b['calls']), at - 1, bad.get('ev'),
-                json.dumps({k: bad.get(k) for k in ('ok', 'ret', 'stored', 'aliased', 'snap', 'vl', 'store_same',
+                json.dumps({k: bad.get(k) for k in ('ok', 'ret', 'stored', 'aliased', 'fresh_ok', 'fresh_same', 'hdr', 'snap', 'vl', 'store_same',
                                                     'vl_same', 'base_same', 'same_first', 'exc')
                             if k in bad}, sort_keys=True))
             rep.violate(clause, signature(clause, at, events), case, detail=detail)
@@ -646,10 +734,10 @@ def behaviours_of(rep, cfg, seen, res):
 
 
 QUICK_CFGS = ['MC_Results_quick.cfg', 'MC_Results_quick2.cfg', 'MC_Results_ragged.cfg', 'MC_Results_miss.cfg',
-              'MC_Results_edge.cfg', 'MC_Results_horizon.cfg']
+              'MC_Results_edge.cfg', 'MC_Results_horizon.cfg', 'MC_Results_names.cfg']
 THOROUGH_CFGS = ['MC_Results_thorough.cfg', 'MC_Results_thorough2.cfg', 'MC_Results_ragged_thorough.cfg',
                  'MC_Results_miss_thorough.cfg', 'MC_Results_miss_thorough2.cfg', 'MC_Results_edge_thorough.cfg',
-                 'MC_Results_horizon_thorough.cfg']
+                 'MC_Results_horizon_thorough.cfg', 'MC_Results_names_thorough.cfg']
 
 
 def run(rep):
@@ -706,6 +794,11 @@ def run(rep):
                               'b': False, 'fmt': '%.5g'}]}
         judge(rep, [special] + ragged + quick_miss + edge, 'interrupted', need_failing_get=True, need_one_point=True)
         judge(rep, edge + quick_miss, 'initialised', need_failing_get=True, need_one_point=True)
+        # a seeded sample of the name-list / replace histories on the real models
+        names = by_cfg['MC_Results_names.cfg'] + by_cfg['MC_Results_names_thorough.cfg']
+        rnd.shuffle(names)
+        judge(rep, names[:3000], 'solved')
+        judge(rep, names[:3000], 'interrupted')
 
 
 def replay(path):
